@@ -10,8 +10,9 @@ LIB_SRCS = ['Lib/structs/bst.c', 'Lib/utils/mem.c', 'Lib/utils/log.c']
 RULE = ('scripts over new(dtor?,user|default comparator)/ins/rm/find/len/clear/free/trav/iterate/it new|next|get|rm; '
         'values are integers used as pointers; user comparator orders by v/4 (distinct pointers may compare equal), '
         'default-comparator pools contain pointers >= 2^31, 2^32 and 2^63 apart; every insertion order of K distinct '
-        'elements (K <= 5 quick, <= 6 thorough), each followed by every single removal and by every '
-        'iterate-with-removal pattern; random scripts with mixed ops; non-trivial = a destructor ran or >= 3 '
+        'elements for K <= 6 (thorough: 7), each followed by every single removal and by every '
+        'iterate-with-removal pattern (K <= 5; quick K = 6 / thorough K = 7: all-ones, alternating and random patterns); '
+        'far-apart pointer triples inserted in all pair and triple orders; random scripts with mixed ops; non-trivial = a destructor ran or >= 3 '
         'elements were inserted and one removed')
 EXHAUSTIVE = {'quick': True, 'thorough': True}
 
@@ -80,8 +81,10 @@ def one_random(rng, n_ops):
     return lines
 
 
-def perm_scripts(K, which):
-    """all insertion orders of K distinct elements; which(i) -> (dtor, cmp-name, values)"""
+def perm_scripts(K, which, rng=None, masks='all'):
+    """all insertion orders of K distinct elements; which(i) -> (dtor, cmp-name, values); each order
+    is followed by every single removal and by iterate-with-removal patterns (`masks`: 'all' = every
+    subset of positions, 'none' = no iteration scripts, int n = all-ones, alternating and n random ones)"""
     out = []
     for pi, perm in enumerate(itertools.permutations(range(K))):
         d, cn, vals = which(pi)
@@ -89,7 +92,14 @@ def perm_scripts(K, which):
         tag = 'perm%d:%s' % (K, ''.join(map(str, perm)))
         for j in range(K):
             out.append(('%s:rm%d' % (tag, j), head + ['rm %d' % vals[j], 'find %d' % vals[j], 'len', 'free']))
-        for mask in range(1 << K):
+        if masks == 'all':
+            ms = range(1 << K)
+        elif masks == 'none':
+            ms = []
+        else:
+            full = (1 << K) - 1
+            ms = sorted({full, full // 3, (full // 3) << 1 & full} | {rng.randrange(1 << K) for _ in range(masks)})
+        for mask in ms:
             ls = list(head) + ['it new']
             for j in range(K):
                 ls.append('it get')
@@ -103,20 +113,34 @@ def perm_scripts(K, which):
 
 def scripts(rng, tier):
     out = []
-    kmax = 5 if tier == 'quick' else 6
-    uservals = [8, 17, 26, 35, 40, 49]
-    farvals = [5, 2**31 + 5, 2**32 + 5, 2**33 + 5, 2**63 + 5, 2**64 - 3]
-    for K in range(1, kmax + 1):
-        out += perm_scripts(K, lambda i: ((1, 'user', uservals) if i % 2 == 0 else (1, 'default', farvals)) if K > 3
-                            else [(1, 'user', uservals), (1, 'default', farvals), (0, 'default', farvals)][i % 3])
-    if kmax < 6:
-        # a sample of the K = 6 orders in every quick run as well
-        allp = list(itertools.permutations(range(6)))
-        for perm in rng.sample(allp, 40):
-            head = ['new 1 default'] + ['ins %d' % farvals[j] for j in perm]
-            for j in range(6):
-                out.append(('perm6s:%s:rm%d' % (''.join(map(str, perm)), j), head + ['rm %d' % farvals[j], 'free']))
-    n = 600 if tier == 'quick' else 12000
+    uservals = [8, 17, 26, 35, 40, 49, 54]
+    farvals = [5, 2**31 + 5, 2**32 + 5, 2**33 + 5, 2**63 + 5, 2**64 - 3, 3 * 2**32 + 5]
+
+    def which(K):
+        if K > 3:
+            return lambda i: (1, 'user', uservals) if i % 2 == 0 else (1, 'default', farvals)
+        return lambda i: [(1, 'user', uservals), (1, 'default', farvals), (0, 'default', farvals)][i % 3]
+    for K in range(1, 6):
+        out += perm_scripts(K, which(K))
+    if tier == 'quick':
+        out += perm_scripts(6, which(6), rng, masks=1)
+    else:
+        out += perm_scripts(6, which(6))
+        out += perm_scripts(7, which(7), rng, masks=2)
+    # default comparator: pairs must keep their relative order whatever else is in the set
+    # (differences in (2^31, 2^32) and multiples of 2^32 are the interesting distances)
+    for i in range(60 if tier == 'quick' else 600):
+        a = rng.choice([1, 10, 2**31, 2**32 + 7, 2**40, 2**63 - 5])
+        d1 = rng.randrange(2**30, 2**31) if i % 3 else rng.choice([2**31, 2**32, 2**33])
+        d2 = rng.randrange(2**30, 2**31) if i % 3 != 1 else rng.choice([2**31, 2**32, 3 * 2**31])
+        tri = [a, a + d1, a + d1 + d2]
+        ls = ['new %d default' % (i % 2)]
+        for pair in ((1, 2), (0, 2), (0, 1)):
+            ls += ['ins %d' % tri[pair[0]], 'ins %d' % tri[pair[1]], 'clear']
+        for perm in rng.sample(list(itertools.permutations(range(3))), 3):
+            ls += ['ins %d' % tri[j] for j in perm] + ['find %d' % tri[0], 'clear']
+        out.append(('cons:%d' % i, ls))
+    n = 3000 if tier == 'quick' else 20000
     for i in range(n):
         out.append(('rnd:%d' % i, one_random(rng, rng.randrange(5, 70 if tier == 'quick' else 250))))
     return out
@@ -126,9 +150,16 @@ def scripts(rng, tier):
 # independent oracle: a sorted list of elements
 
 class Abs:
+    """the abstract set: `elems` is the expected in-order sequence.  With the user comparator the
+    order is prescribed (ascending v // 4).  With the library's default comparator the property only
+    demands that distinct pointers are distinct elements and that they are ordered *consistently*:
+    the order is learnt from the implementation's in-order dumps and every pair must keep the
+    relative order it was first seen in, for the whole script."""
+
     def __init__(self, dtor, user):
         self.dtor, self.user = dtor, user
-        self.elems = []       # sorted by key
+        self.elems = []
+        self.before = set()       # default comparator: pairs (a, b) observed with a before b
 
     def key(self, v):
         return v // 4 if self.user else v
@@ -141,10 +172,28 @@ class Abs:
 
     def add(self, v):
         self.elems.append(v)
-        self.elems.sort(key=self.key)
+        if self.user:
+            self.elems.sort(key=self.key)
 
     def remove(self, e):
         self.elems.remove(e)
+
+    def check_inorder(self, ino):
+        """-> error text or None; adopts the observed order for the default comparator"""
+        if self.user:
+            return None if ino == self.elems else 'in-order traversal %s, content in ascending comparator order %s' % (ino, self.elems)
+        if sorted(ino) != sorted(self.elems):
+            return 'in-order traversal %s is not the content %s' % (ino, sorted(self.elems))
+        for i in range(len(ino)):
+            for j in range(i + 1, len(ino)):
+                if (ino[j], ino[i]) in self.before:
+                    return 'pointers %d and %d are not ordered consistently: in-order traversal %s, earlier %d came first' % (
+                        ino[i], ino[j], ino, ino[j])
+        for i in range(len(ino)):
+            for j in range(i + 1, len(ino)):
+                self.before.add((ino[i], ino[j]))
+        self.elems = list(ino)
+        return None
 
 
 def build_from_pre_in(pre, ino):
@@ -199,6 +248,7 @@ def parse_dump(o):
 
 
 def spec(lines, out):
+    """Independent oracle (no Lean involved) of the property over the implementation's output."""
     v = []
     pos = [0]
 
@@ -215,11 +265,15 @@ def spec(lines, out):
         return ds
 
     A = None            # abstract set, None = NULL handle
-    it = None           # abstract iterator: dict(cur=value or None, removed=bool, last=key of last position)
+    it = None           # abstract iterator: dict(pos=index into A.elems, removed=bool)
     last_dump = ([], [], [], -1)
 
     def bad(clause, msg):
         v.append((clause, msg))
+
+    def is_fail(o):
+        """an error return: the property fixes no error code except -EEXIST for a duplicate"""
+        return o.startswith('= -') and o[3:].isdigit()
 
     for ln in lines:
         t = ln.split()
@@ -241,48 +295,53 @@ def spec(lines, out):
                 bad('set', '%s -> %s' % (ln, o))
         elif op == 'ins':
             x = int(t[1])
+            cont = list(A.elems) if A else None
             if A is None or x == 0:
-                exp = -EINVAL
+                ok = is_fail(o)
+                exp = 'an error'
             elif A.find(x) is not None:
-                exp = -EEXIST
+                ok = o == '= %d' % -EEXIST
+                exp = '-EEXIST'
             else:
-                exp = 0; A.add(x)
-            if o != '= %d' % exp:
+                ok = o == '= 0'
+                exp = '0'
+                A.add(x)
+            if not ok:
                 far = A is not None and not A.user
-                bad('ptrcmp' if far and x != 0 else 'set', '%s -> %s, expected %d (content %s)' % (ln, o, exp, A.elems if A else None))
+                bad('ptrcmp' if far and x != 0 else 'set', '%s -> %s, expected %s (content %s)' % (ln, o, exp, cont))
                 return v
         elif op == 'rm':
             x = int(t[1])
-            if A is None or not A.elems or x == 0:
-                exp = -EINVAL
+            e = None if (A is None or x == 0) else A.find(x)
+            if e is None:
+                if not is_fail(o):
+                    bad('set', '%s -> %s, expected an error (no element compares equal; content %s)' % (ln, o, A.elems if A else None)); return v
             else:
-                e = A.find(x)
-                if e is None:
-                    exp = -ENOENT
-                else:
-                    exp = 0; A.remove(e)
-                    if A.dtor:
-                        exp_ds = [e]
-            if o != '= %d' % exp:
-                bad('set', '%s -> %s, expected %d' % (ln, o, exp)); return v
+                if o != '= 0':
+                    bad('set', '%s -> %s, expected 0 (element %d compares equal)' % (ln, o, e)); return v
+                A.remove(e)
+                if A.dtor:
+                    exp_ds = [e]
         elif op == 'find':
             x = int(t[1])
             e = A.find(x) if (A is not None and x != 0) else None
             if o != ('= nil' if e is None else '= %d' % e):
                 bad('set', '%s -> %s, expected %s' % (ln, o, e))
         elif op == 'len':
-            exp = -EINVAL if A is None else len(A.elems)
-            if o != '= %d' % exp:
-                bad('len', '%s -> %s, expected %d' % (ln, o, exp))
+            if A is None:
+                if not is_fail(o):
+                    bad('len', '%s -> %s on a NULL set' % (ln, o))
+            elif o != '= %d' % len(A.elems):
+                bad('len', '%s -> %s, expected %d' % (ln, o, len(A.elems)))
         elif op == 'clear':
             if A is None or not A.elems:
-                exp = -EINVAL
+                if not (is_fail(o) or o == '= 0'):
+                    bad('set', '%s -> %s' % (ln, o))
             else:
-                exp = 0
                 exp_ds = list(A.elems) if A.dtor else []
                 A.elems = []
-            if o != '= %d' % exp:
-                bad('set', '%s -> %s, expected %d' % (ln, o, exp))
+                if o != '= 0':
+                    bad('set', '%s -> %s, expected 0' % (ln, o))
         elif op == 'free':
             if A is not None:
                 exp_ds = list(A.elems) if A.dtor else []
@@ -299,51 +358,54 @@ def spec(lines, out):
             r = nxt()
             full = {'pre': last_dump[0], 'in': last_dump[1], 'post': last_dump[2]}[order]
             if A is None:
-                exp_seq, exp_r = [], -EINVAL
-            elif stop is not None and stop[0] < len(full) and stop[1] != 0:
-                exp_seq, exp_r = full[:stop[0] + 1], (stop[1] if stop[1] < 0 else 0)
+                if seq or not is_fail(r):
+                    bad('order', '%s on a NULL set -> %s / %s' % (ln, seq, r))
             else:
-                exp_seq, exp_r = full, 0
-            if seq != exp_seq or r != '= %d' % exp_r:
-                bad('order', '%s -> %s / %s, expected %s / %d' % (ln, seq, r, exp_seq, exp_r))
+                if stop is not None and stop[0] < len(full) and stop[1] != 0:
+                    exp_seq, exp_r = full[:stop[0] + 1], (stop[1] if stop[1] < 0 else 0)
+                else:
+                    exp_seq, exp_r = full, 0
+                if seq != exp_seq or r != '= %d' % exp_r:
+                    bad('order', '%s -> %s / %s, expected %s / %d' % (ln, seq, r, exp_seq, exp_r))
         elif op == 'it':
             sub = t[1]
             if sub == 'new':
                 if A is not None and A.elems:
-                    it = {'cur': A.elems[0], 'removed': False}
+                    it = {'pos': 0, 'removed': False}
                     exp = '= itr'
                 else:
                     it = None; exp = '= nil'
                 if o != exp:
                     bad('iter', '%s -> %s, expected %s' % (ln, o, exp)); return v
             elif sub == 'get':
-                exp = '= nil' if (it is None or it['removed']) else '= %d' % it['cur']
+                exp = '= nil' if (it is None or it['removed']) else '= %d' % A.elems[it['pos']]
                 if o != exp:
                     bad('iter', '%s -> %s, expected %s (content %s)' % (ln, o, exp, A.elems if A else None))
             elif sub == 'rm':
                 if it is None or it['removed']:
-                    exp = -EINVAL
+                    if not is_fail(o):
+                        bad('iter', '%s -> %s, expected an error (no current element)' % (ln, o)); return v
                 else:
-                    exp = 0
-                    A.remove(it['cur'])
+                    e = A.elems[it['pos']]
+                    A.remove(e)
                     if A.dtor:
-                        exp_ds = [it['cur']]
+                        exp_ds = [e]
                     it['removed'] = True
-                if o != '= %d' % exp:
-                    bad('iter', '%s -> %s, expected %d' % (ln, o, exp)); return v
+                    if o != '= 0':
+                        bad('iter', '%s -> %s, expected 0' % (ln, o)); return v
             elif sub == 'next':
                 if it is None:
-                    exp = '= %d end' % -EINVAL
+                    if not (is_fail(o[:o.rfind(' ')]) and o.endswith(' end')):
+                        bad('iter', '%s without iterator -> %s' % (ln, o)); return v
                 else:
-                    # the next element: the smallest one above the position the iterator was at
-                    k = A.key(it['cur'])
-                    above = [e for e in A.elems if A.key(e) > k]
-                    if above:
-                        it = {'cur': above[0], 'removed': False}; exp = '= 0 live'
+                    # the element following the position; after a removal the position already names it
+                    p = it['pos'] if it['removed'] else it['pos'] + 1
+                    if p < len(A.elems):
+                        it = {'pos': p, 'removed': False}; exp = '= 0 live'
                     else:
                         it = None; exp = '= 0 end'
-                if o != exp:
-                    bad('iter', '%s -> %s, expected %s (content %s)' % (ln, o, exp, A.elems if A else None)); return v
+                    if o != exp:
+                        bad('iter', '%s -> %s, expected %s (content %s)' % (ln, o, exp, A.elems if A else None)); return v
         if sorted(ds) != sorted(exp_ds) or (op != 'clear' and op != 'free' and ds != exp_ds):
             bad('dtor', '%s: destructor called on %s, expected %s' % (ln, ds, exp_ds))
         d = nxt()
@@ -352,11 +414,15 @@ def spec(lines, out):
             bad('fault', 'no state dump after "%s" (%s)' % (ln, d)); return v
         last_dump = pd
         pre, ino, post, n = pd
-        want = [] if A is None else A.elems
-        if ino != want:
-            bad('order', 'after "%s": in-order traversal %s, content in ascending order %s' % (ln, ino, want)); return v
-        if n != (-1 if A is None else len(want)):
-            bad('len', 'after "%s": len %d, %d elements' % (ln, n, len(want)))
+        if A is None:
+            if pre or ino or post:
+                bad('order', 'after "%s": traversals of a NULL set are not empty' % ln)
+            continue
+        err = A.check_inorder(ino)
+        if err:
+            bad('order', 'after "%s": %s' % (ln, err)); return v
+        if n != len(A.elems):
+            bad('len', 'after "%s": len %d, %d elements' % (ln, n, len(A.elems)))
         tr = build_from_pre_in(pre, ino)
         if tr is None or post_of(tr) != post:
             bad('order', 'after "%s": pre %s / in %s / post %s are not the traversals of one binary tree' % (ln, pre, ino, post))
